@@ -517,7 +517,8 @@ class IoContract(Generic[TermList_t]):
         outputvars = self.outputvars.copy()
         assumptions = self.a.copy()
         guarantees = self.g.copy()
-        return type(self)(assumptions, guarantees, inputvars, outputvars)
+        # a copy holds the same constraints: simplifying them again may drop or reject what the original keeps
+        return type(self)(assumptions, guarantees, inputvars, outputvars, simplify=False)
 
     def __le__(self, other: object) -> bool:
         if not isinstance(other, type(self)):
